@@ -34,6 +34,10 @@ def gen(rng, strategy, signal_case=False):
     n = horizon_steps
     nveh = rng.choice([1, 1, 2, 3, 4]) if not signal_case else rng.choice([1, 1, 2, 3])
     tight = (not signal_case) and rng.random() < 0.35       # single vehicle, connector head room binding at times
+    # directed: everything encouraged lies late, where the head room is small (rising fixed load / lowered limit)
+    directed = (not signal_case) and strategy in ("balanced_market", "peak_load_window", "flex_window") and rng.random() < 0.3
+    if directed:
+        tight = True
     if tight:
         nveh = 1
     P = rng.choice([11, 22, 50])
@@ -42,13 +46,13 @@ def gen(rng, strategy, signal_case=False):
           "charging_curve": [[0, P], [0.8, P], [1, P / 4]] if taper else [[0, P], [1, P]],
           "min_charging_power": 0 if rng.random() < 0.85 or strategy not in MINPOWER_STRATS else rng.choice([1, 2]), "v2g": False}
     cs_p = rng.choice([P, P, P / 2, 2 * P])
-    fixed = rng.random() < 0.5
+    fixed = rng.random() < 0.5 or (directed and strategy != "peak_load_window")
     fl_vals = [round(rng.uniform(0, 30), 2) for _ in range(n + 2)] if fixed else []
-    if fixed and rng.random() < 0.4:
+    if fixed and (rng.random() < 0.4 or directed):
         k = rng.randrange(1, n)
         fl_vals = [5.0] * k + [round(rng.uniform(20, 40), 2)] * (n + 2 - k)       # load rising later
     gc_max = nveh * cs_p + (max(fl_vals) if fixed else 0) + rng.choice([1, 10, 100])
-    if tight and rng.random() < 0.5:
+    if tight and (rng.random() < 0.5 or (directed and fixed)):
         gc_max = (max(fl_vals) if fixed else 0) + rng.choice([2, 5, cs_p / 2])
     comp = {"vehicle_types": {"vt": vt}, "vehicles": {}, "charging_stations": {}, "batteries": {}, "photovoltaics": {},
             "grid_connectors": {"GC1": {"max_power": gc_max, "voltage_level": "MV", "grid_operator": "op",
@@ -59,7 +63,7 @@ def gen(rng, strategy, signal_case=False):
                                         "values": fl_vals}
     # the signal: a boolean pattern over steps (True = encouraged)
     pat = [True] * n
-    kind = rng.choice(["block", "block", "alternating", "late", "early", "none"])
+    kind = rng.choice(["block", "block", "alternating", "late", "early", "none"]) if not directed else "late"
     if kind == "block":
         a = rng.randrange(0, n)
         b_ = min(n, a + rng.randrange(1, max(2, n // 2)))
@@ -115,11 +119,13 @@ def gen(rng, strategy, signal_case=False):
         extra["time_windows"] = {"op": {"all": {"start": "2021-01-01", "end": "2021-12-31", "windows": {"MV": wins}}}}
     else:
         pat = [True] * n
-    if tight and rng.random() < 0.7 and strategy != "flex_window":
+    if tight and (rng.random() < 0.7 or directed) and strategy != "flex_window":
         # a reduced connector limit for part of the time
         a = rng.randrange(0, n)
         b_ = rng.randrange(a, n + 1)
-        low = round(max(gc_max * rng.choice([0.1, 0.5, 0.8]), (max(fl_vals) if fixed else 0) + rng.choice([2, 4])), 2)
+        if directed:
+            a, b_ = next((i for i in range(n) if pat[i]), 0), n
+        low = round(min(gc_max, max(gc_max * rng.choice([0.1, 0.5, 0.8]), (max(fl_vals) if fixed else 0) + rng.choice([2, 4]))), 2)
         ev["grid_operator_signals"].append({"signal_time": iso(start), "start_time": iso(start + dt * a), "grid_connector_id": "GC1",
                                             "max_power": low})
         if b_ < n and rng.random() < 0.6:
@@ -135,7 +141,7 @@ def gen(rng, strategy, signal_case=False):
         if desired <= soc0:
             desired = min(1.0, soc0 + 0.3)
         arr_step = rng.choice([0, 0, rng.randrange(0, max(1, n // 3))])
-        margin = rng.choice([1.0, 1.0, 1.3, 2.0, 3.0])
+        margin = rng.choice([1.0, 1.0, 1.3, 2.0, 3.0]) if not directed else rng.choice([1.3, 2.0])
         comp["vehicles"][vid] = {"vehicle_type": "vt", "soc": soc0, "desired_soc": desired, "_arr": arr_step, "_margin": margin, "_cs": cs}
     return {"js": {"scenario": {"start_time": iso(start), "interval": interval, "n_intervals": n + 2}, "components": comp, "events": ev},
             "pattern": pat, "strategy": strategy, "extra": extra, "signal_case": signal_case,
